@@ -51,3 +51,7 @@ claim("C04", "static: alias-derivation (may-share-backing-array) taint of the ca
       "Decides that no value aliasing the caller's payload is ever appended to / copied into / stored through (also inside readValue), that v1 exact-length and v2 zero-extension gates precede decoding, that truncation is applied exactly for v2 with a one-byte floor, that fields are skipped iff !isV2 && extension symmetrically in Read and Write, and the bounded string scan/copy. Value-level round trips and panic-freedom over all payloads are not decided.",
       "Trusts reflect and encoding/binary; append's in-place behaviour per the Go spec.",
       "DESIGN.md §5 C04")
+claim("C03", "static: constant-table evaluation, per-case width/accessor extraction of readValue/writeValue, comparator dependence analysis, ordered hash-input extraction of the CRC_EXTRA closure, narrowing-conversion/8-bit-arithmetic lint with bound-test dominance, exhaustive go/types evaluation of all 3,444 listed message structs against an independent spec oracle and the published CRC table",
+      "Algorithm half: each ingredient of the codec (type tables, per-type widths and little-endian accessors, ordering comparator, CRC_EXTRA pre-image, non-wrapping size arithmetic) is decided structurally. Data half: exhaustive over every message listed by every shipped dialect (admissibility, extension suffix, size ≤ 255, constant unique ids, golden CRC_EXTRA for standard messages computed by the checker's own oracle). The run-time composition of the ingredients is not executed.",
+      "Golden CRC table recalled from the reference C headers and retained only where the checker's independent spec computation agrees (136 ids).",
+      "DESIGN.md §5 C03")
